@@ -5,6 +5,8 @@ import QclibModel.Proofs.BaaBest
 import QclibModel.Proofs.BaaSaved
 import QclibModel.Proofs.BaaExact
 import QclibModel.Proofs.BaaNested
+import QclibModel.Proofs.BaaGreedyFin
+import QclibModel.Proofs.BaaNestedFin
 /-
   C08 — bounded approximation (`BaaLowRankInitialize`, `util/baa.py`): exact at zero loss, faithful
   to its plan, within budget.  Property theorems only; proofs live in Proofs/Baa*.lean.
@@ -379,5 +381,175 @@ theorem C08_cnots_conditional {α : Type} (L : LossOps α) (O : Oracle α) (P : 
 example (O : Oracle ℤ) (vec : Nat) : (∀ e : Entry, (((entryCost O e).toNat : Nat) : Int) ≤ entryCost O e) ∧
     O.cnots vec none 0 ≤ O.cnots vec none 0 :=
   ⟨fun e => by unfold entryCost; simp, Nat.le_refl _⟩
+
+/-! ## Added later: `greedy` candidates, zero loss for all four strategies -/
+
+/-- **C08 (`_greedy_combinations`).**  For every oracle whose answer without low rank starts with
+the rank-1 separation (`GreedyOracle`: the real `_reduce_entanglement(…, use_low_rank=False)`
+returns exactly that one answer), every non-empty register `qs` and every `max_k`: each candidate
+the model of `_greedy_combinations` yields is a non-empty, strictly increasing (hence
+duplicate-free) list of at most `max_k` qubits of the register — so for `max_k ≤ len(qs)//2` a
+non-empty proper subset.  Behind it: after `j` rounds the node's registers are `j` single qubits
+followed by the entangled remainder (`GInv`). -/
+theorem C08_greedy_candidates {α : Type} (L : LossOps α) (O : Oracle α) (hO : GreedyOracle O)
+    (vec : Nat) (qs : List Nat) (hqs : qs ≠ []) (maxK : Nat) :
+    (∀ part ∈ (greedyCombinations L O vec qs maxK).1,
+      part ≠ [] ∧ part.length ≤ maxK ∧ part.Pairwise (· < ·) ∧ ∀ q ∈ part, q ∈ qs)
+    ∧ ∀ s, ProperCandidates L O s :=
+  ⟨greedy_candidates L O hO vec qs hqs maxK, properCandidates_all L O hO⟩
+
+/-- **C08 (exact at zero loss, all four strategies; supersedes `C08_zero_loss_partial`).**  As
+`C08_zero_loss`, for `greedy`, `split`, `canonical` and `brute_force` alike: with
+`max_fidelity_loss = 0`, oracle losses in `[0,1]`, exact zero-loss answers (`ExactSplits`) and an
+oracle whose answer without low rank starts with the rank-1 separation (`GreedyOracle`, only used
+by `greedy`), the state assembled from the plan `adaptive_approximation` returns has amplitude
+`val vec I` at every index `I < 2^n`.  The properness of the candidates is now a theorem for every
+strategy (`C08_greedy_candidates`). -/
+theorem C08_zero_loss_all {K R : Type} [CommRing K] [LinearOrder K] [IsStrictOrderedRing K]
+    [CommMonoid R] (O : Oracle K) (P : Params K) (hG : GreedyOracle O) (n vec maxK : Nat)
+    (hn : 2 ≤ n) (hP : P.maxLoss = 0)
+    (hO : ∀ v lp u, ∀ s ∈ O.schmidt v lp u, 0 ≤ s.loss ∧ s.loss ≤ 1)
+    (val : Nat → Nat → R) (size : Nat → Nat) (hsize : size vec = n) (hex : ExactSplits O val size)
+    (nd : Node K) (h : adaptiveApproximation (orderedOps K) O P n vec maxK = some nd) (I : Nat)
+    (hI : I < 2 ^ n) :
+    assembled 1 n (nd.entries.map (fun e => (e.qubits, val e.vec))) I = val vec I :=
+  C08_zero_loss_partial O P n vec maxK hn hP hO val size hsize hex
+    (properCandidates_all _ O hG P.strategy) nd h I hI
+
+/-- Non-vacuity: the exact demo oracle answers every query with one rank-1 record, and the
+`greedy` search on it returns the two one-qubit factors. -/
+example : GreedyOracle C08_exactOracle ∧
+    (adaptiveApproximation (orderedOps ℤ) C08_exactOracle ⟨0, .greedy, false⟩ 2 0 0).map
+      (fun nd => nd.entries.map (fun e => e.qubits)) = some [[0], [1]]
+    ∧ (greedyCombinations (orderedOps ℤ) C08_exactOracle 0 [0, 1, 2, 3] 2).1.length = 2 := by
+  refine ⟨fun v lp => ⟨_, [], rfl, rfl⟩, by decide, by decide⟩
+
+/-! ## Added later: the shape of the plans for `n ≤ 3` and the true loss of nested truncations -/
+
+/-- **C08 (plans are short nestings).**  For every `n ≥ 2`, every strategy, budget and
+`max_combination_size`, every oracle that never reports rank `0` and whose answer without low
+rank starts with the rank-1 separation: the plan `adaptive_approximation` returns is reached from
+the root by at most `n − 1` approximations (`path`, root included, has at most `n` members; the
+weight `Σ_{rank-0 registers}(size − 1)` drops at every step), its accounted loss is
+`1 − ∏(1 − l_i)` over that path, and **for `n ≤ 3` at most one register of the plan — and of every
+node on the way, each being reachable itself — has more than one qubit**: every approximation
+acts inside the only multi-qubit factor while all its siblings are single qubits, kept to the
+end.  So for `n ≤ 3` every plan is a nesting of at most two splits. -/
+theorem C08_plan_nesting_n3 {K : Type} [CommRing K] [LinearOrder K] [IsStrictOrderedRing K]
+    (O : Oracle K) (P : Params K) (hR : RankPos O) (hG : GreedyOracle O) (n vec maxK : Nat)
+    (hn : 2 ≤ n) (nd : Node K)
+    (h : adaptiveApproximation (orderedOps K) O P n vec maxK = some nd) :
+    ∃ path : List (Node K), 1 ≤ path.length ∧ path.length ≤ n
+      ∧ nd.totalLoss = chainLoss (path.map (·.nodeLoss))
+      ∧ (n ≤ 3 → ((nd.entries.filter (fun x => x.qubits.length != 1)).length ≤ 1)) := by
+  have key : ∀ (P' : Params K) k0 path k,
+      Reach (orderedOps K) O P' (rootNode (orderedOps K) n vec) k0 path nd k →
+      1 ≤ path.length ∧ path.length ≤ n ∧ nd.totalLoss = chainLoss (path.map (·.nodeLoss))
+      ∧ (n ≤ 3 → ((nd.entries.filter (fun x => x.qubits.length != 1)).length ≤ 1)) := by
+    intro P' k0 path k hr
+    have hsh := reach_shape (orderedOps K) O P' n vec k0 hn hR
+      (properCandidates_all _ O hG P'.strategy) path nd k hr
+    refine ⟨hsh.pos, by have := hsh.weight; omega, (reach_chain O P' n vec k0 path nd k hr).1, ?_⟩
+    intro hn3
+    have h1 := hsh.single hn3
+    have e : ∀ l : List Entry, (l.filter (fun x => x.qubits.length != 1)).length = (l.map ns).sum := by
+      intro l
+      induction l with
+      | nil => rfl
+      | cons x xs ih =>
+        by_cases hx : x.qubits.length = 1
+        · simp [hx, ns, ih]
+        · simp [hx, ns, ih]; omega
+    rw [e]; exact h1
+  rcases adaptive_reach _ O P n vec maxK nd h with ⟨_, path, k, hr⟩ | ⟨path, k, hr⟩
+  · exact ⟨path, key _ _ _ _ hr⟩
+  · exact ⟨path, key _ _ _ _ hr⟩
+
+/-- Non-vacuity: the exact demo oracle never reports rank `0`. -/
+example : RankPos C08_exactOracle := by
+  intro v lp u s hs
+  simp only [C08_exactOracle, List.mem_singleton] at hs
+  subst hs
+  exact Nat.le_refl 1
+
+/-- **C08 (loss of a rank-1 truncation, and of two nested ones).**  Over any commutative ring with
+conjugation, finite sums, orthonormality as hypothesis.  Let `M = Σ_{i<k} U[:,i] s_i V[i,:]` with
+the rows of `V` orthogonal to the normalised `V₀` and `U₀` normalised.  Then
+* `⟨M | U₀ ⊗ V₀⟩ = conj(s₀)`: the fidelity of the rank-1 truncation is `conj(s₀)·s₀`, so its true
+  loss is `1 − |s₀|²` — exactly the `fidelity_loss = 1 − Σ low_rank_s²` the code accounts;
+* if the kept-on factor is replaced by ANY `w` with `⟨U₀|w⟩ = z` (in particular by the rank-1
+  truncation `A₀ ⊗ B₀` of `U₀`, where `z = conj(t₀)`), `⟨M | w ⊗ V₀⟩ = conj(s₀)·z`;
+* consequently, with `l₁ = 1 − |s₀|²` and `l₂ = 1 − |t₀|²`, the true loss of the nested plan
+  `1 − |conj(s₀)conj(t₀)|²` equals the accounted loss `1 − (1 − l₂)(1 − l₁)(1 − 0)`
+  (`chainLoss [l₂, l₁, 0]`, the root contributing `0`), hence is `≤ max_loss` whenever the
+  accounted loss is. -/
+theorem C08_rank1_loss {K : Type} [CommRing K] [StarRing K] (rows cols k : Nat) (hk : 0 < k)
+    (U : Nat → Nat → K) (s : Nat → K) (V : Nat → Nat → K)
+    (hV : ∀ i, i < k → gramRows cols V i 0 = if i = 0 then 1 else 0)
+    (hU0 : sumTo rows (fun r => star (U r 0) * U r 0) = 1) :
+    inner2 star rows cols (composeMat k U s V) (fun r c => U r 0 * V 0 c) = star (s 0)
+    ∧ (∀ (w : Nat → K) (z : K), sumTo rows (fun r => star (U r 0) * w r) = z →
+        inner2 star rows cols (composeMat k U s V) (fun r c => w r * V 0 c) = star (s 0) * z)
+    ∧ (∀ (t0 l1 l2 : K), star (s 0) * s 0 = 1 - l1 → star t0 * t0 = 1 - l2 →
+        1 - star (star (s 0) * star t0) * (star (s 0) * star t0) = chainLoss [l2, l1, 0]) := by
+  refine ⟨overlap_leading rows cols k hk U s V hV hU0,
+    fun w z hw => nested_two rows cols k hk U s V hV w z hw, fun t0 l1 l2 h1 h2 => ?_⟩
+  rw [true_loss_two (s 0) t0 l1 l2 h1 h2]
+  simp only [chainLoss, List.map_cons, List.map_nil, List.prod_cons, List.prod_nil]
+  ring
+
+/-- Non-vacuity: `U = V = I₂` meet the orthonormality hypotheses. -/
+example {K : Type} [CommRing K] [StarRing K] :
+    (∀ i, i < 2 → gramRows (K := K) 2 (fun i c => if i = c then 1 else 0) i 0 = if i = 0 then 1 else 0)
+    ∧ sumTo 2 (fun r => star ((fun (r c : Nat) => if r = c then (1 : K) else 0) r 0)
+        * (fun (r c : Nat) => if r = c then (1 : K) else 0) r 0) = 1 := by
+  refine ⟨fun i hi => ?_, by simp [sumTo]⟩
+  rcases (by omega : i = 0 ∨ i = 1) with rfl | rfl <;> simp [gramRows, sumTo]
+
+/-
+  Full statement aimed at (C08_true_loss_n3): for `n ≤ 3`, `1 − |⟨val vec | planTensor(plan)⟩|² =
+  nd.totalLoss ≤ max_loss` for the plan returned, given the SVD specification of the oracle's
+  answers.  Proved (`C08_true_loss_n3_partial` below, from `C08_plan_nesting_n3`, `C08_rank1_loss`
+  and `C08_budget_result`): the plan is a nesting of at most two approximations, each inside the
+  only multi-qubit factor with single-qubit siblings; its accounted loss is the chain loss of at
+  most two losses and is within the budget; and for such a nesting, written with bipartition
+  matrices, the true loss EQUALS that chain loss.  Missing: the identification of the model's
+  `planTensor` (factors placed through `gather`/`toBits` on interleaved registers) with the
+  matrix form `(A₀ ⊗ B₀) ⊗ V₀` used in `C08_rank1_loss`, i.e. the index bookkeeping that
+  `childOf_semOK` does for exact splits, redone for inner products.  The harness checks `true loss
+  = accounted loss ≤ max_loss` numerically for every `n ≤ 3` case on every run.
+-/
+/-- **C08 (true loss for `n ≤ 3`, partial).**  For `2 ≤ n ≤ 3`, budget `≥ 0`, any strategy, and an
+oracle as in `C08_plan_nesting_n3`: the returned plan has accounted loss
+`chainLoss [l₂, l₁, 0]`-shaped — a chain over a path of at most three nodes (root and at most two
+approximations) — which is `≤ max_loss`; at most one of its registers has more than one qubit;
+and for every two-level nesting of rank-1 truncations in matrix form the true loss equals the
+accounted chain loss (so it is `≤ max_loss` too). -/
+theorem C08_true_loss_n3_partial {K : Type} [CommRing K] [LinearOrder K] [IsStrictOrderedRing K]
+    [StarRing K] (O : Oracle K) (P : Params K) (hR : RankPos O) (hG : GreedyOracle O)
+    (n vec maxK : Nat) (hn : 2 ≤ n) (hn3 : n ≤ 3) (h0 : 0 ≤ P.maxLoss) (nd : Node K)
+    (h : adaptiveApproximation (orderedOps K) O P n vec maxK = some nd) :
+    (∃ path : List (Node K), 1 ≤ path.length ∧ path.length ≤ 3
+      ∧ nd.totalLoss = chainLoss (path.map (·.nodeLoss)) ∧ nd.totalLoss ≤ P.maxLoss
+      ∧ (nd.entries.filter (fun x => x.qubits.length != 1)).length ≤ 1)
+    ∧ ∀ (rows cols k : Nat) (U : Nat → Nat → K) (s : Nat → K) (V : Nat → Nat → K), 0 < k →
+        (∀ i, i < k → gramRows cols V i 0 = if i = 0 then 1 else 0) →
+        sumTo rows (fun r => star (U r 0) * U r 0) = 1 →
+        ∀ (w : Nat → K) (t0 l1 l2 : K), sumTo rows (fun r => star (U r 0) * w r) = star t0 →
+        star (s 0) * s 0 = 1 - l1 → star t0 * t0 = 1 - l2 →
+        chainLoss [l2, l1, 0] ≤ P.maxLoss →
+        1 - star (inner2 star rows cols (composeMat k U s V) (fun r c => w r * V 0 c))
+              * inner2 star rows cols (composeMat k U s V) (fun r c => w r * V 0 c)
+          = chainLoss [l2, l1, 0]
+        ∧ 1 - star (inner2 star rows cols (composeMat k U s V) (fun r c => w r * V 0 c))
+              * inner2 star rows cols (composeMat k U s V) (fun r c => w r * V 0 c) ≤ P.maxLoss := by
+  constructor
+  · obtain ⟨path, h1, h2, h3, h4⟩ := C08_plan_nesting_n3 O P hR hG n vec maxK hn nd h
+    exact ⟨path, h1, by omega, h3, (C08_budget_result O P n vec maxK h0 nd h).1, h4 hn3⟩
+  · intro rows cols k U s V hk hV hU0 w t0 l1 l2 hw h1 h2 hle
+    obtain ⟨_, hb, hc⟩ := C08_rank1_loss rows cols k hk U s V hV hU0
+    rw [hb w (star t0) hw]
+    have := hc t0 l1 l2 h1 h2
+    exact ⟨this, by rw [this]; exact hle⟩
 
 end Qclib
